@@ -196,6 +196,11 @@ def handle_train(c):
         tg = np.array(it.training_gradients(pt), dtype=float).ravel()
     fw, fc = f(w), f(a * v + w)
     res = [q(t) for t in tg]
+    if name.startswith('scipy'):
+        # scipy wrappers: no Coq model; the interpolant is linear in the table values, so the checks below
+        # (linearity, value == sum(d_dvalues * values)) and a difference quotient in single table values decide
+        res = '__none__'
+        kind += '/orders=' + ','.join(str(o) for o in c.get('orders', []))
     ok, msg = True, ''
     if not close(fc, Fr(a) * Fr(fv) + Fr(fw), exact):
         ok, msg = False, '%s at %s: interp(a*v+w)=%r but a*interp(v)+interp(w)=%r (a=%s)' % (
@@ -205,6 +210,17 @@ def handle_train(c):
         if len(tg) != v.size or not close(fv, dot, exact):
             ok, msg = False, '%s at %s: interp(v)=%r but sum(training_gradients*v)=%r' % (
                 name, [str(fr(x)) for x in c['pt']], fv, float(dot))
+    if ok and name.startswith('scipy'):
+        sc = max(1.0, float(np.max(np.abs(v))))
+        rng_ = np.random.default_rng(len(tg))
+        for kflat in rng_.choice(v.size, size=min(3, v.size), replace=False):
+            e = np.zeros(v.size)
+            e[kflat] = 1.0
+            dq = f(v + e.reshape(v.shape)) - fv           # exact for a function linear in the table values
+            if abs(dq - tg[kflat]) > 1e-8 * max(sc, abs(dq)):
+                ok, msg = False, '%s grid sizes %s at %s: d value / d table[%d] returned %r, difference quotient %r' % (
+                    name, [len(g) for g in grids], [str(fr(x)) for x in c['pt']], int(kflat), float(tg[kflat]), dq)
+                break
     return {'res': res, 'ok': ok, 'msg': msg, 'sig': 'd_dvalues', 'kind': kind}
 
 
